@@ -17,6 +17,7 @@ import (
 	"os"
 	"strconv"
 	"strings"
+	"sync"
 	"sync/atomic"
 	"testing"
 	"time"
@@ -66,6 +67,19 @@ type stamp struct{ t time.Time }
 
 func clockNow() stamp { return stamp{time.Now()} }
 
+// Measured for the evidence: how far the monotonic elapsed time of an
+// empty-handed timed get stayed below its timeout (expected: below 1000 us, the
+// granularity of the millisecond clock the queue uses), and how many were checked.
+var (
+	maxShortfallUs atomic.Int64
+	emptyTimed     atomic.Int64
+)
+
+func flushTimed(sub string) {
+	pbt.Extra(sub, "empty_handed_timed_gets_checked_so_far_in_this_process", emptyTimed.Load())
+	pbt.Extra(sub, "max_us_by_which_monotonic_elapsed_stayed_below_timeout", maxShortfallUs.Load())
+}
+
 // tooEarly reports whether a timed get that came back empty-handed between the
 // two readings returned before its timeout (milliseconds) had elapsed. The
 // queue measures its timeout on the millisecond wall clock, so the elapsed time
@@ -76,25 +90,68 @@ func clockNow() stamp { return stamp{time.Now()} }
 func tooEarly(before, after stamp, timeoutMs int) (bool, string) {
 	wall := after.t.UnixMilli() - before.t.UnixMilli()
 	mono := after.t.Sub(before.t)
+	if short := (time.Duration(timeoutMs)*time.Millisecond - mono).Microseconds(); short > maxShortfallUs.Load() {
+		maxShortfallUs.Store(short) // measured for the evidence only (single writer at a time is not required: a lost update only loses a maximum)
+	}
+	emptyTimed.Add(1)
 	if wall < int64(timeoutMs) && mono < time.Duration(timeoutMs)*time.Millisecond {
 		return true, fmt.Sprintf("%d ms clock ticks / %v monotonic elapsed, timeout %d ms", wall, mono, timeoutMs)
 	}
 	return false, ""
 }
 
-// guarded runs a blocking Get that the model says must return at once (the
-// queue is not empty) and reports whether it came back within hangLimit.
-func guarded(get func() interface{}) (v interface{}, returned bool) {
-	ch := make(chan interface{}, 1)
-	go func() { ch <- get() }()
-	tm := time.NewTimer(hangLimit())
-	defer tm.Stop()
-	select {
-	case v = <-ch:
-		return v, true
-	case <-tm.C:
-		hangSeen.Store(true)
-		return nil, false
+// watched executes a sequential history in its own goroutine. The history
+// announces every call before making it; when a call has not returned after
+// hangLimit the history is reported as hanging at that call (for the blocking
+// Get, which the histories only ever issue while an element is available, this
+// is the "returns as soon as an element is available" clause; for any other call
+// the queue has stopped working altogether).
+func watched(run func(announce func(string)) *pbt.Result) *pbt.Result {
+	var (
+		mu   sync.Mutex
+		step int64
+		what string
+	)
+	announce := func(s string) {
+		mu.Lock()
+		step++
+		what = s
+		mu.Unlock()
+	}
+	type out struct {
+		r *pbt.Result
+		p interface{}
+	}
+	done := make(chan out, 1)
+	go func() {
+		var o out
+		defer func() {
+			o.p = recover()
+			done <- o
+		}()
+		o.r = run(announce)
+	}()
+	tick := time.NewTicker(20 * time.Millisecond)
+	defer tick.Stop()
+	last, lastAt := int64(-1), time.Now()
+	for {
+		select {
+		case o := <-done:
+			if o.p != nil {
+				panic(o.p) // becomes a violation in pbt.SafeRun, like any unexpected panic
+			}
+			return o.r
+		case <-tick.C:
+			mu.Lock()
+			cur, w := step, what
+			mu.Unlock()
+			if cur != last {
+				last, lastAt = cur, time.Now()
+			} else if time.Since(lastAt) > hangLimit() {
+				hangSeen.Store(true)
+				return pbt.Fail("%s: the call did not return within %v", w, hangLimit())
+			}
+		}
 	}
 }
 
@@ -208,6 +265,10 @@ func (m *fifo) pop() (int, bool) {
 }
 
 func runSeqSingle(c SeqCase) *pbt.Result {
+	return watched(func(announce func(string)) *pbt.Result { return seqSingle(c, announce) })
+}
+
+func seqSingle(c SeqCase, announce func(string)) *pbt.Result {
 	q := queue.NewRequestQueue(c.Cap)
 	var failed, over []interface{}
 	if !c.NoFail {
@@ -224,6 +285,7 @@ func runSeqSingle(c SeqCase) *pbt.Result {
 		nf, no := len(failed), len(over)
 		var wantFailed, wantOver []int
 		at := fmt.Sprintf("op %d (%s) with capacity %d and model content %v", i, op.K, m.cap, m.q)
+		announce(at)
 		switch op.K {
 		case "put":
 			want := m.put(v)
@@ -257,13 +319,8 @@ func runSeqSingle(c SeqCase) *pbt.Result {
 			var got interface{}
 			switch {
 			case op.K == "get" && have:
-				// the blocking Get is only ever called when an element is available
-				var ret bool
-				got, ret = guarded(q.Get)
-				if !ret {
-					q.PutForce(-1) // try to release the stuck goroutine
-					return pbt.Fail("%s: blocking Get did not return within %v although an element is available", at, hangLimit())
-				}
+				// the blocking Get is only ever called when an element is available (see watched)
+				got = q.Get()
 				cl["blocking-get"] = true
 			case op.K == "timed":
 				t0 := clockNow()
@@ -317,6 +374,7 @@ func runSeqSingle(c SeqCase) *pbt.Result {
 		}
 	}
 	// what is left must come out in model order
+	announce("final drain with GetNoWait")
 	var rest []interface{}
 	for n := 0; n <= len(m.q); n++ {
 		v := q.GetNoWait()
@@ -348,7 +406,7 @@ func keys(m map[string]bool) []string {
 var specSeqSingle = pbt.Register(pbt.Spec[SeqCase]{
 	Prop: "C11", Name: "seq-single",
 	Rule:  "rapid-generated histories of 1-60 operations (put, put-force, blocking get only when non-empty, get-no-wait, get-timeout 1-30 ms, clear, set-capacity incl. 0/negative/below current size, size) on one RequestQueue with recording Failed/Overflowed callbacks (each sometimes left nil), compared step by step with a slice+capacity model; non-trivial = history with at least one refused put or one eviction; distinct by operation sequence",
-	Quick: 8000, Thorough: 200000,
+	Quick: 8000, Thorough: 400000,
 	Draw: func(t *rapid.T) SeqCase {
 		return SeqCase{
 			Cap:    rapid.SampledFrom(capChoices).Draw(t, "cap"),
@@ -371,7 +429,11 @@ func noteSeq(t *testing.T) {
 	}
 }
 
-func TestSeqSingle(t *testing.T) { defer noteSeq(t); specSeqSingle.Check(t) }
+func TestSeqSingle(t *testing.T) {
+	defer noteSeq(t)
+	defer flushTimed("seq-single")
+	specSeqSingle.Check(t)
+}
 
 func rep(k string, n int) []SOp {
 	out := make([]SOp, n)
@@ -452,6 +514,10 @@ func joinInts(q []int) string {
 }
 
 func runSeqDouble(c DSeqCase) *pbt.Result {
+	return watched(func(announce func(string)) *pbt.Result { return seqDouble(c, announce) })
+}
+
+func seqDouble(c DSeqCase, announce func(string)) *pbt.Result {
 	q := queue.NewRequestDoubleQueue(c.Cap1, c.Cap2)
 	m := [3]*fifo{nil, {cap: c.Cap1}, {cap: c.Cap2}}
 	cl := map[string]bool{}
@@ -459,6 +525,7 @@ func runSeqDouble(c DSeqCase) *pbt.Result {
 	for i, op := range c.Ops {
 		v := i + 1
 		at := fmt.Sprintf("op %d (%s) with capacities %d/%d and model content %v / %v", i, op.K, m[1].cap, m[2].cap, m[1].q, m[2].q)
+		announce(at)
 		switch op.K {
 		case "put1", "put2":
 			k := int(op.K[3] - '0')
@@ -502,12 +569,7 @@ func runSeqDouble(c DSeqCase) *pbt.Result {
 			var got interface{}
 			switch {
 			case op.K == "get" && have:
-				var ret bool
-				got, ret = guarded(q.Get)
-				if !ret {
-					q.PutForce1(-1)
-					return pbt.Fail("%s: blocking Get did not return within %v although an element is available", at, hangLimit())
-				}
+				got = q.Get()
 				cl["blocking-get"] = true
 			case op.K == "timed":
 				t0 := clockNow()
@@ -556,6 +618,7 @@ func runSeqDouble(c DSeqCase) *pbt.Result {
 		}
 	}
 	want := append(append([]int(nil), m[1].q...), m[2].q...)
+	announce("final drain with GetNoWait")
 	var rest []interface{}
 	for n := 0; n <= len(want); n++ {
 		v := q.GetNoWait()
@@ -573,7 +636,7 @@ func runSeqDouble(c DSeqCase) *pbt.Result {
 var specSeqDouble = pbt.Register(pbt.Spec[DSeqCase]{
 	Prop: "C11", Name: "seq-double",
 	Rule:  "rapid-generated histories of 1-60 operations (put1/2, put-force1/2, blocking get only when non-empty, get-no-wait, get-timeout 1-30 ms, clear, set-capacity, size) on one RequestDoubleQueue compared step by step with a two-slice model that serves queue 1 first; refusal/eviction observed through return values, Size1/Size2 and content (the callbacks are unexported); non-trivial = history with at least one refused put or one eviction; distinct by operation sequence",
-	Quick: 6000, Thorough: 160000,
+	Quick: 6000, Thorough: 300000,
 	Draw: func(t *rapid.T) DSeqCase {
 		return DSeqCase{
 			Cap1: rapid.SampledFrom(capChoices).Draw(t, "cap1"),
@@ -584,7 +647,11 @@ var specSeqDouble = pbt.Register(pbt.Spec[DSeqCase]{
 	Run: runSeqDouble,
 })
 
-func TestSeqDouble(t *testing.T) { defer noteSeq(t); specSeqDouble.Check(t) }
+func TestSeqDouble(t *testing.T) {
+	defer noteSeq(t)
+	defer flushTimed("seq-double")
+	specSeqDouble.Check(t)
+}
 
 func TestSeqDoubleBoundaries(t *testing.T) {
 	defer noteSeq(t)
